@@ -3,13 +3,23 @@
 //        every thread: iters x { lock (write, or read for rw/qrw); occupancy check + unprotected counter; hold; unlock }
 //        log (global atomic stamp order): call <T> <r|w> <to> | ret <T> <r|w> <0|-1> <errno> | unlock <T> | overlap <T>
 //        (call is stamped before the call, ret after it returned, unlock before the unlock: what the log shows as held is held)
-//   sem <nvcpu> <waiters per vcpu> <photon signallers> <os signallers> <tokens per signaller> <ooo 0|1>
+//   sem <nvcpu> <waiters per vcpu> <photon signallers> <os signallers> <tokens per signaller> <ooo 0|1> [<timeouts 0|1>]
+//        timeouts=1: the waits are wait_interruptible() with 20..320 us timeouts and a plain OS thread interrupts waiters at random
 //        log: signal <S> <n> (stamped before signal()) | got <W> <n> (stamped after wait() returned 0)
+//   semooo <big waiters> <rounds>
+//        out-of-order semaphore with a long queue of never-satisfied waiters on one vCPU and a waiter W of 1 token at its tail;
+//        one plain OS thread signals 1 token whenever W waits, another one interrupts W whenever it waits: signal() has to walk the
+//        queue past the big waiters while W is being interrupted / resumed from elsewhere
 //   semd <nvcpu> <pairs> <rounds> <os 0|1>
 //        destroy right after wait: the waiter destroys the semaphore and fills its memory with a pattern as soon as wait() returns;
 //        when the signaller's signal() has returned the pattern must be intact:   late-write <pair> <round>   otherwise
 //   cond <nvcpu> <producers> <consumers> <items per producer> <capacity>
 //        bounded buffer with photon::mutex + two condition variables, infinite waits: produced <p> <n> | got <c> <p> <seq>
+//   handoff <mutex|mutex0|rw|qrw> <rounds> <intr 0|1>
+//        one hand-over per round between two vCPUs, aimed at the window between a locker's last failed attempt and its going to
+//        sleep: U (vCPU A) holds the lock, L (vCPU B) calls lock() (no timeout), U unlocks after a random delay of 0..3 us and
+//        does not touch the lock again until L has returned; with intr=1 a plain OS thread calls thread_interrupt(L) around the
+//        same moment (log: intr <T>). L must return (0, or -1/EINTR only if interrupted) and the lock must be usable afterwards.
 //   run
 // a program in which nobody makes progress for 3 s prints   q   (every thread is blocked) and   result hung
 #include <photon/thread/thread.h>
@@ -34,7 +44,7 @@ struct Rec { int kind; int t; long a; long b; };
 static const int MAXLOG = 1 << 21;
 static Rec* logbuf; static std::atomic<long> logpos{0};
 static void ev(int kind, int t, long a = 0, long b = 0) { long i = logpos.fetch_add(1); if (i < MAXLOG) logbuf[i] = {kind, t, a, b}; }
-enum { CALL_R, CALL_W, RET_R, RET_W, UNLOCK, OVERLAP, SIGNAL, GOT, LATE, PRODUCED, GOTITEM };
+enum { CALL_R, CALL_W, RET_R, RET_W, UNLOCK, OVERLAP, SIGNAL, GOT, LATE, PRODUCED, GOTITEM, INTR };
 static std::string TOS;
 static std::atomic<long> progress{0}; static std::atomic<int> finished_threads{0};
 static int total_threads = 0;
@@ -54,6 +64,7 @@ static void dump_log() {
         case LATE: printf("late-write %d %ld\n", r.t, r.a); break;
         case PRODUCED: printf("produced %d %ld\n", r.t, r.a); break;
         case GOTITEM: printf("got %d %ld %ld\n", r.t, r.a, r.b); break;
+        case INTR: printf("intr T%d\n", r.t); break;
         } }
 }
 static void finish(const char* res) { dump_log(); printf("%s\n", res); fflush(stdout); _exit(0); }
@@ -90,27 +101,109 @@ static void lock_thread(LockArgs a) {
     finished_threads++;
 }
 
+// ---------------------------------------------------------------- hand-over rounds
+static std::atomic<long> h_held{0}, h_going{0}, h_got{0}, h_intr_done{0}; static std::atomic<thread*> h_L{nullptr}; static long h_rounds = 0; static bool h_intr = false;
+static long now_ns() { struct timespec ts; clock_gettime(CLOCK_MONOTONIC, &ts); return ts.tv_sec * 1000000000L + ts.tv_nsec; }
+static void spin_ns(long ns) { long t = now_ns() + ns; while (now_ns() < t) {} }
+static int h_lock(bool wr) { return g_m ? g_m->lock() : g_rw ? g_rw->lock(wr ? WLOCK : RLOCK) : g_q->lock(wr ? WLOCK : RLOCK); }
+static void h_unlock() { if (g_m) g_m->unlock(); else if (g_rw) g_rw->unlock(); else g_q->unlock(); }
+static void handoff_U() {
+    unsigned rs = 4242;
+    for (long r = 1; r <= h_rounds; ++r) {
+        ev(CALL_W, 1); int ret = h_lock(true); ev(RET_W, 1, ret, ret ? errno : 0);
+        if (ret != 0) break;
+        if (in_w.fetch_add(1) != 0 || in_r.load() != 0) ev(OVERLAP, 1, in_w.load(), in_r.load());
+        h_held.store(r);
+        while (h_going.load() != r) {}
+        rs = rs * 1103515245 + 12345; spin_ns((rs >> 8) % 3000);
+        ev(UNLOCK, 1); in_w.fetch_sub(1); h_unlock();
+        while (h_got.load() != r) {}
+        if (h_intr) while (h_intr_done.load() != r) {}       // the interrupt of this round has been issued: it cannot hit a later round's call
+        progress++;
+    }
+    finished_threads++;
+}
+static void handoff_L() {
+    h_L.store(CURRENT);
+    unsigned rs = 99;
+    for (long r = 1; r <= h_rounds; ++r) {
+        while (h_held.load() != r) { if (finished_threads.load()) { finished_threads++; return; } }
+        rs = rs * 1103515245 + 12345; bool wr = g_m ? true : ((rs >> 16) & 1);
+        h_going.store(r);
+        ev(wr ? CALL_W : CALL_R, 2); errno = 0; int ret = h_lock(wr); int en = ret ? errno : 0;
+        if (ret == 0) { if (wr) { if (in_w.fetch_add(1) != 0 || in_r.load() != 0) ev(OVERLAP, 2, in_w.load(), in_r.load()); } else { in_r.fetch_add(1); if (in_w.load() != 0) ev(OVERLAP, 2, in_w.load(), in_r.load()); } }
+        ev(wr ? RET_W : RET_R, 2, ret, en);
+        if (ret == 0) { ev(UNLOCK, 2); if (wr) in_w.fetch_sub(1); else in_r.fetch_sub(1); h_unlock(); }
+        h_got.store(r); progress++;
+    }
+    finished_threads++;
+}
+static void handoff_X() {
+    unsigned rs = 31337;
+    for (long r = 1; r <= h_rounds; ++r) {
+        while (h_going.load() != r) { if (finished_threads.load()) return; }
+        rs = rs * 1103515245 + 12345; spin_ns((rs >> 8) % 3000);
+        if ((rs >> 20) % 4 != 0) { ev(INTR, 2); thread_interrupt(h_L.load(), EINTR); }
+        h_intr_done.store(r);
+    }
+}
+
 // ---------------------------------------------------------------- semaphore scenarios
 static semaphore* g_sem; static std::atomic<long> to_take{0};
+static bool g_sem_timeouts = false; static std::vector<std::atomic<thread*>> g_waiters(64);
 static void sem_waiter(int id) {
+    unsigned rs = 555 + id;
+    g_waiters[id % 64].store(CURRENT);
     for (;;) {
         long k = 1 + id % 3;
         long left = to_take.fetch_sub(k);
-        if (left <= 0) break;
-        if (left < k) k = left;
-        if (g_sem->wait(k) == 0) { ev(GOT, id, k); progress++; }
+        if (left <= 0) { to_take.fetch_add(k); if (to_take.load() <= 0) break; thread_yield(); continue; }
+        if (left < k) { to_take.fetch_add(k - left); k = left; }
+        int r;
+        if (g_sem_timeouts) { rs = rs * 1103515245 + 12345; r = g_sem->wait_interruptible(k, 20 + (rs >> 16) % 300); }
+        else r = g_sem->wait(k);
+        if (r == 0) { ev(GOT, id, k); progress++; }
+        else to_take.fetch_add(k);            // a failed wait took nothing: the tokens are still to be taken
     }
+    g_waiters[id % 64].store(nullptr);
     finished_threads++;
+}
+static std::atomic<bool> sem_stop{false};
+static void sem_interrupter() {
+    unsigned rs = 9;
+    while (!sem_stop.load()) {
+        rs = rs * 1103515245 + 12345;
+        auto th = g_waiters[(rs >> 16) % 64].load();
+        if (th) thread_interrupt(th, EINTR);
+        usleep(20 + (rs >> 8) % 100);
+    }
 }
 static void sem_signaller(int id, int tokens, bool photon_env) {
     unsigned rs = 777 + id; int left = tokens;
     while (left > 0) {
         rs = rs * 1103515245 + 12345; int n = std::min<int>(left, 1 + (rs >> 16) % 3);
         ev(SIGNAL, id, n); g_sem->signal(n); left -= n; progress++;
-        if ((rs >> 8) % 3 == 0) { if (photon_env) thread_yield(); else std::this_thread::yield(); }
+        if (g_sem_timeouts) { if (photon_env) thread_usleep(30 + (rs >> 8) % 100); else usleep(30 + (rs >> 8) % 100); }    // slower than the waiters: they really block and time out
+        else if ((rs >> 8) % 3 == 0) { if (photon_env) thread_yield(); else std::this_thread::yield(); }
     }
     finished_threads++;
 }
+static std::atomic<int> o_waiting{0}; static std::atomic<thread*> o_W{nullptr}; static std::atomic<bool> o_stop{false}; static long o_rounds = 0;
+static void semooo_W() {
+    o_W.store(CURRENT);
+    long done = 0;
+    while (done < o_rounds) {
+        o_waiting = 1;
+        int r = g_sem->wait_interruptible(1);
+        o_waiting = 0;
+        if (r == 0) { ev(GOT, 1, 1); ++done; }
+        progress++;
+    }
+    o_stop = true;
+    finished_threads++;
+}
+static void semooo_S() { while (!o_stop.load()) { if (o_waiting.load()) { ev(SIGNAL, 1, 1); g_sem->signal(1); progress++; } spin_ns(200); } }
+static void semooo_X() { while (!o_stop.load()) { if (o_waiting.load()) { auto th = o_W.load(); if (th) thread_interrupt(th, EINTR); } spin_ns(300); } }
 struct Pair { std::atomic<semaphore*> sem{nullptr}; std::atomic<int> signalled{0}, taken{0}; };
 static void semd_waiter(Pair* p, int id, int rounds) {
     for (int r = 0; r < rounds; ++r) {
@@ -183,15 +276,34 @@ static int run_program(const std::vector<std::string>& lines) {
         int id = 0;
         for (int v = 0; v < nv; ++v) { std::vector<std::function<void()>> b; for (int k = 0; k < per; ++k) { LockArgs a{++id, iters, hold, to == "inf" ? (uint64_t)-1 : strtoull(to.c_str(), 0, 10), wpct, (unsigned)(id * 7919)}; b.push_back([a] { lock_thread(a); }); } on_vcpu(b); }
         total_threads = id;
+    } else if (kind == "handoff") {
+        std::string what; int intr; is >> what >> h_rounds >> intr; h_intr = intr; TOS = "inf";
+        if (what == "mutex") g_m = new mutex; else if (what == "mutex0") g_m = new mutex(0); else if (what == "rw") g_rw = new rwlock; else g_q = new qrwlock;
+        on_vcpu({[] { handoff_L(); }});
+        while (!h_L.load()) thread_usleep(100);
+        on_vcpu({[] { handoff_U(); }});
+        if (h_intr) os.emplace_back([] { handoff_X(); });
+        total_threads = 2;
     } else if (kind == "sem") {
-        int nv, per, ps, oss, tokens, ooo; is >> nv >> per >> ps >> oss >> tokens >> ooo;
+        int nv, per, ps, oss, tokens, ooo, tmo = 0; is >> nv >> per >> ps >> oss >> tokens >> ooo >> tmo; g_sem_timeouts = tmo;
         g_sem = new semaphore(0, !ooo); to_take = (long)(ps + oss) * tokens;
+        if (tmo) os.emplace_back([] { sem_interrupter(); });
         int id = 0;
         for (int v = 0; v < nv; ++v) { std::vector<std::function<void()>> b; for (int k = 0; k < per; ++k) { int w = ++id; b.push_back([w] { sem_waiter(w); }); }
             if (v == 0) for (int s = 0; s < ps; ++s) { int sid = s + 1; b.push_back([sid, tokens] { sem_signaller(sid, tokens, true); }); }
             on_vcpu(b); }
         for (int s = 0; s < oss; ++s) { int sid = 100 + s; os.emplace_back([sid, tokens] { sem_signaller(sid, tokens, false); }); }
         total_threads = id + ps + oss;
+    } else if (kind == "semooo") {
+        int nbig; is >> nbig >> o_rounds;
+        g_sem = new semaphore(0, false);
+        std::vector<std::function<void()>> b;
+        for (int k = 0; k < nbig; ++k) b.push_back([] { g_sem->wait(1000000); });
+        b.push_back([] { thread_usleep(2000); semooo_W(); });
+        on_vcpu(b);
+        os.emplace_back([] { while (!o_W.load()) usleep(100); semooo_S(); });
+        os.emplace_back([] { while (!o_W.load()) usleep(100); semooo_X(); });
+        total_threads = 1;
     } else if (kind == "semd") {
         int nv, pairs, rounds, useos; is >> nv >> pairs >> rounds >> useos;
         std::vector<std::vector<std::function<void()>>> per(nv);
@@ -218,6 +330,8 @@ static int run_program(const std::vector<std::string>& lines) {
         last = p;
         if (stalled >= 30) { dump_log(); printf("q %ld\nstalled finished=%d of %d progress=%ld\nresult hung\n", faket, finished_threads.load(), total_threads, p); fflush(stdout); _exit(0); }
     }
+    sem_stop = true;
+    if (kind == "semooo") { usleep(20000); finish("result done"); }      // the never-satisfied waiters are not joined
     for (auto& t : os) t.join();
     if (kind == "lock") printf("counter %ld %ld\n", (long)unprotected, granted_w.load());
     finish("result done");
